@@ -58,6 +58,10 @@ func H_c02(p []int) {
 		i = int(vByte() & 1)
 	}
 	vSite(fmt.Sprintf("kind=%d dir=%q", kind, d))
+	if len(p) > 4 && p[4] > 0 {
+		// an unrelated earlier call on the same (recycled) printers
+		c12History(p[4]-1, "h")
+	}
 	v := mkValue(kind, string(bs), i)
 	r := catchRedact(func() redact.RedactableString { return redact.Sprintf(d, v, 3) })
 	if r.panicked {
